@@ -4,6 +4,7 @@ package main
 // real server through processRPC (node-sequence component), with the handler-level monitor.
 
 type nsState struct {
+	rest      []uint64 // what follows the node state (leader sequences: commitment fields)
 	sc        []uint64 // 16 scalars
 	latest    []srv
 	committed []srv
@@ -39,6 +40,7 @@ func parseState(st []uint64) *nsState {
 		s.snaps = append(s.snaps, [4]uint64{st[p], st[p+1], st[p+2], st[p+3]})
 		p += 4
 	}
+	s.rest = st[p:]
 	return s
 }
 
